@@ -369,6 +369,10 @@ def execute(case):
             res.bad(key + '/socket_not_closed_by_library',
                     'socket %d was dropped without close(); events %s' % (
                         srec['sock'], names[-4:]))
+    relinfo = tr.release or {}
+    if relinfo.get('selectors_created', 0) != relinfo.get('selectors_closed', 0):
+        res.bad(key + '/selector_not_closed', '%d created, %d closed' % (
+            relinfo.get('selectors_created'), relinfo.get('selectors_closed')))
     # ---- application calls only ever see WebSocketError
     for c in tr.calls:
         if c.outcome == 'raised':
